@@ -1,21 +1,112 @@
 ------------------------------ MODULE MC_World ------------------------------
 (* Worlds (keys, files, scripts, calls) for the AssetCache generator and     *)
-(* model-checking configurations.                                            *)
+(* model-checking configurations.  A world is closed: every key a script     *)
+(* mentions is in its key set.                                               *)
 EXTENDS Gen_AssetCache
 
 K(ty, id) == Key(ty, id)
 F(id, ext) == <<id, ext>>
+Call(o, ks) == {[op |-> o, k |-> k] : k \in ks}
+EditOp(f, c) == [op |-> "edit", f |-> f, c |-> c]
+NotifyOp(b) == [op |-> "notify", batch |-> b]
+Simple(o) == [op |-> o]
 
-(* W1: the map laws (C02), extension order and errors (C03) ---------------- *)
+(* W1: the map laws (C02): loads, owned, get, goi, remove, take, clear ------ *)
 W1Keys == {K("L0","a"), K("L1","a"), K("L2","a"), K("L0","b"), K("N0","a"), K("S0","a")}
 W1Files == {F("a","x"), F("a","y"), F("b","x")}
-W1Src == [f \in W1Files |-> CASE f = F("a","x") -> CVal(1) [] f = F("a","y") -> CVal(2) [] OTHER -> None]
+W1Srcs == {[f \in W1Files |-> CASE f = F("a","x") -> CVal(1) [] f = F("a","y") -> CVal(2) [] OTHER -> None]}
 W1Scripts == (K("N0","a") :> <<ILoad("L0","a",TRUE), ILoad("L2","a",FALSE), IGet("L0","b")>>)
 W1Ops ==
-    {[op |-> o, k |-> k] : o \in {"load", "get", "remove"}, k \in W1Keys \ {K("S0","a")}}
-    \cup {[op |-> o, k |-> k] : o \in {"owned", "take", "contains"}, k \in {K("L0","a"), K("N0","a"), K("L1","a")}}
+    Call("load", W1Keys \ {K("S0","a")}) \cup Call("get", W1Keys) \cup Call("remove", W1Keys \ {K("L1","a")})
+    \cup Call("owned", {K("L0","a"), K("N0","a")}) \cup Call("take", {K("L0","a"), K("N0","a"), K("S0","a")})
+    \cup Call("contains", {K("L0","a"), K("L2","a")})
     \cup {[op |-> "goi", k |-> k, n |-> 7] : k \in {K("S0","a"), K("L0","a"), K("L0","b")}}
-    \cup {[op |-> "get", k |-> K("S0","a")], [op |-> "take", k |-> K("S0","a")], [op |-> "clear"]}
-    \cup {[op |-> "edit", f |-> F("b","x"), c |-> CVal(3)], [op |-> "edit", f |-> F("a","x"), c |-> CBad],
-          [op |-> "edit", f |-> F("a","x"), c |-> None]}
+    \cup {Simple("clear")}
+    \cup {EditOp(F("b","x"), CVal(3)), EditOp(F("a","x"), CBad), EditOp(F("a","x"), None)}
+
+(* W2: what a load returns (C03): every content of every extension --------- *)
+W2Keys == {K("L0","a"), K("L1","a"), K("L3","a"), K("L4","a"), K("L5","a"), K("L6","a"), K("L7","a"),
+           K("N0","b"), K("N1","c")}
+W2Files == {F("a","x"), F("a","y"), F("a","z"), F("a","")}
+W2Contents == {None, CVal(1), CBad, CIo("denied"), CIo("other"), CIo("notfound")}
+W2Srcs == {s \in [W2Files -> W2Contents] : s[F("a","")] \in {None, CVal(1), CBad}}
+W2Scripts == (K("N0","b") :> <<ILoad("L1","a",TRUE)>>) @@ (K("N1","c") :> <<ILoad("N0","b",TRUE), ILoad("L6","a",FALSE)>>)
+W2Ops == Call("load", W2Keys) \cup Call("owned", {K("L1","a"), K("L6","a"), K("N1","c")})
+
+(* W2b: break / repair orders on a two-extension leaf and a compound over it *)
+W2bKeys == {K("L1","a"), K("L3","a"), K("N0","b")}
+W2bFiles == {F("a","x"), F("a","y")}
+W2bSrcs == {[f \in W2bFiles |-> None], [f \in W2bFiles |-> CBad],
+            [f \in W2bFiles |-> IF f = F("a","x") THEN CIo("denied") ELSE CVal(2)]}
+W2bScripts == (K("N0","b") :> <<ILoad("L1","a",TRUE)>>)
+W2bOps == Call("load", W2bKeys) \cup Call("contains", W2bKeys)
+          \cup {EditOp(f, c) : f \in W2bFiles, c \in {None, CVal(1), CBad, CIo("other")}}
+
+(* W3: a diamond under hot-reloading (C05, C06, C14) ----------------------- *)
+W3Keys == {K("L0","a"), K("N0","b"), K("N1","c"), K("N2","d"), K("L2","a")}
+W3Files == {F("a","x"), F("b","x")}
+W3Srcs == {[f \in W3Files |-> CVal(1)]}
+W3Scripts == (K("N0","b") :> <<ILoad("L0","a",TRUE)>>)
+          @@ (K("N1","c") :> <<ILoad("L0","a",TRUE), IRead("b","x"), ILoad("L2","a",FALSE)>>)
+          @@ (K("N2","d") :> <<ILoad("N0","b",TRUE), ILoad("N1","c",FALSE)>>)
+W3Batches == {{FileE("a","x")}, {FileE("b","x")}, {FileE("a","x"), FileE("b","x"), FileE("c","x")}, {DirE("")}}
+W3Ops == Call("load", {K("N2","d"), K("N0","b"), K("L0","a")}) \cup {Simple("hot_reload")}
+         \cup {NotifyOp(b) : b \in W3Batches}
+         \cup {EditOp(F("a","x"), c) : c \in {CVal(2), CBad, None}} \cup {EditOp(F("b","x"), CVal(5))}
+
+(* W4: re-wiring through an indirection (C05 re-learning; the D8 shape) ----- *)
+W4Keys == {K("L0","a"), K("L0","b"), K("N0","c")}
+W4Files == {F("a","x"), F("b","x"), F("c","y")}
+W4Srcs == {[f \in W4Files |-> CASE f = F("c","y") -> CRef("a") [] OTHER -> CVal(1)]}
+W4Scripts == (K("N0","c") :> <<IIndirect("c","y","L0",TRUE)>>)
+W4Ops == Call("load", W4Keys) \cup {Simple("hot_reload")}
+         \cup {NotifyOp(b) : b \in {{FileE("c","y")}, {FileE("b","x")}, {FileE("a","x")}, {FileE("c","y"), FileE("b","x")}}}
+         \cup {EditOp(F("c","y"), CRef("b")), EditOp(F("c","y"), CRef("a")), EditOp(F("b","x"), CVal(2)), EditOp(F("a","x"), CVal(3))}
+
+(* W5: directories (C11 through the cache, C05 for directory changes) ------- *)
+W5Keys == {K("DL0",""), K("DL0","d"), K("DL1","d"), K("RL0",""), K("RL0","d"), K("RL0","d.e"),
+           K("DL0","d.e"), K("L0","d.a"), K("L1","d.a")}
+W5Files == {F("a","x"), F("d.a","x"), F("d.a","y"), F("d.b","y"), F("d.e.a","x")}
+W5Srcs == {[f \in W5Files |-> IF f \in {F("a","x"), F("d.a","x"), F("d.b","y")} THEN CVal(1) ELSE None]}
+W5Scripts == [k \in {} |-> <<>>]
+W5Ops == Call("load", {K("DL0","d"), K("DL1","d"), K("RL0",""), K("DL0","")}) \cup {Simple("hot_reload")}
+         \cup {NotifyOp(b) : b \in {{DirE("d")}, {DirE("")}, {DirE("d.e"), FileE("d.e.a","x")}, {DirE("d"), DirE("d.e")}}}
+         \cup {EditOp(F("d.a","y"), CVal(2)), EditOp(F("d.a","x"), None), EditOp(F("d.e.a","x"), CVal(4)),
+               EditOp(F("d.b","y"), None), [op |-> "mkdir", d |-> "d.e"]}
+
+(* W6: what is declared non-reloadable (C10; the D7 history) ---------------- *)
+W6Keys == {K("L0","a"), K("L2","a"), K("S0","a"), K("N4","a")}
+W6Files == {F("a","x")}
+W6Srcs == {[f \in W6Files |-> CVal(1)]}
+W6Scripts == (K("N4","a") :> <<IRead("a","x")>>)
+W6Ops == Call("load", {K("L0","a"), K("L2","a"), K("N4","a")}) \cup Call("remove", {K("L0","a")}) \cup Call("take", {K("L0","a")})
+         \cup {Simple("clear"), Simple("hot_reload"), NotifyOp({FileE("a","x")}), EditOp(F("a","x"), CVal(2)), EditOp(F("a","x"), CVal(3))}
+         \cup {[op |-> "goi", k |-> k, n |-> 7] : k \in {K("L0","a"), K("S0","a"), K("L2","a")}}
+
+(* W7: faults (C09) ---------------------------------------------------------- *)
+W7Keys == {K("L1","a"), K("L0","b"), K("N0","c"), K("N1","d")}
+W7Files == {F("a","x"), F("a","y"), F("b","x")}
+W7Srcs == {[f \in W7Files |-> IF f = F("a","x") THEN None ELSE CVal(1)]}
+W7Scripts == (K("N0","c") :> <<ILoad("L1","a",TRUE), ILoad("L0","b",TRUE)>>)
+          @@ (K("N1","d") :> <<ILoad("L0","b",FALSE), ILoad("N0","c",TRUE)>>)
+W7Arms == {[op |-> "arm", what |-> "read", at |-> n, kind |-> kd] : n \in 0..3, kd \in {"notfound", "denied", "other"}}
+          \cup {[op |-> "arm", what |-> w, at |-> n, kind |-> "other"] : w \in {"loader", "panic"}, n \in 0..1}
+W7Ops == Call("load", {K("N1","d"), K("N0","c")}) \cup W7Arms \cup {Simple("disarm")}
+W7ROps == W7Ops \cup {Simple("hot_reload"), NotifyOp({FileE("b","x"), FileE("a","y")}), EditOp(F("b","x"), CVal(2)), EditOp(F("a","y"), CVal(3))}
+
+(* W8: enhance_hot_reloading ('static cache) --------------------------------- *)
+W8Ops == Call("load", {K("N2","d"), K("L0","a")}) \cup {Simple("enhance"), Simple("hot_reload")}
+         \cup {NotifyOp(b) : b \in {{FileE("a","x")}, {FileE("b","x")}}}
+         \cup {EditOp(F("a","x"), c) : c \in {CVal(2), CBad}} \cup {EditOp(F("b","x"), CVal(5))}
+
+(* W9: attribution of dependencies (C14): no_record, load_owned, nesting ----- *)
+W9Keys == {K("L0","a"), K("L0","b"), K("L0","c"), K("L2","a"), K("N0","d"), K("N1","d.a"), K("N4","d.b")}
+W9Files == {F("a","x"), F("b","x"), F("c","x"), F("d","y")}
+W9Srcs == {[f \in W9Files |-> CVal(1)]}
+W9Scripts == (K("N0","d") :> <<INoRec(<<ILoad("L0","a",TRUE), IRead("d","y")>>), IOwned("L0","b",TRUE), ILoad("N1","d.a",TRUE), ILoad("N4","d.b",TRUE)>>)
+          @@ (K("N1","d.a") :> <<ILoad("L0","c",TRUE)>>)
+          @@ (K("N4","d.b") :> <<IRead("d","y"), ILoad("L2","a",TRUE)>>)
+W9Ops == Call("load", {K("N0","d")}) \cup {Simple("hot_reload")}
+         \cup {NotifyOp({FileE(f[1], f[2])}) : f \in W9Files}
+         \cup {EditOp(f, CVal(2)) : f \in W9Files}
 =============================================================================
